@@ -1,0 +1,23 @@
+//go:build verif
+
+// Machine-checked contracts (comment-only; compiled only under the build tag "verif").
+package grace
+
+// Higher-order contract: the action f is invoked exactly once, first; "done" (retry == false, err == nil) is reported
+// only if that invocation returned no error and either changed nothing or no grace period is configured.
+
+//@ func runWithGraceSeconds
+//@ props C04 C06
+//@ invokes f
+//@ ensures error_passthrough: (result2 != nil) == (#f.ret1 != nil)
+//@ ensures retry_on_error: result2 != nil ==> result0
+//@ ensures done_means_action_succeeded: !result0 && result2 == nil ==> #f.ret1 == nil && (!#f.ret0 || graceSeconds == 0)
+//@ ensures modified_means_wait: result2 == nil && #f.ret0 && graceSeconds != 0 ==> result0
+
+//@ func RunWithGraceSeconds
+//@ props C04 C06
+//@ invokes f
+//@ ensures error_passthrough: (result2 != nil) == (#f.ret1 != nil)
+//@ ensures retry_on_error: result2 != nil ==> result0
+//@ ensures done_means_action_succeeded: !result0 && result2 == nil ==> #f.ret1 == nil && (!#f.ret0 || graceSeconds == 0)
+//@ ensures modified_means_wait: result2 == nil && #f.ret0 && graceSeconds != 0 ==> result0
